@@ -257,6 +257,10 @@ func OnProfile(it Item, fn withProfileFn) error {
 	}
 	if IsItemCollection(it) {
 		return OnItemCollection(it, func(col *ItemCollection) error {
+			if col == nil {
+				// a nil list is handed to the callback as a nil pointer: nothing to visit
+				return nil
+			}
 			for _, it := range *col {
 				if IsLink(it) {
 					continue
